@@ -65,6 +65,23 @@ Envs(dummy) ==
    : opt \in BOOLEAN, mgr \in {"none", "u2", "u3"}, inner \in BOOLEAN, tags \in BOOLEAN, ing \in BOOLEAN,
      opt2 \in BOOLEAN, owner \in {TU1, TU2}, ac \in ActCtx}
 
+\* environments addressed by a parameter tuple
+\*   <<opt, mgr, inner, tags, ing, opt2, owner, ac, princ>>
+ActCtxSeq == << <<TView, [flag |-> <<"bool", TRUE>>]>>, <<TView, [flag |-> <<"bool", FALSE>>]>>,
+                <<TView, [flag |-> <<"bool", TRUE>>, lim |-> TL(3)]>>, <<TView, [flag |-> <<"bool", FALSE>>, lim |-> TL(3)]>>,
+                <<TEdit, <<>>>> >>
+UidOfName(n) == IF n = "u1" THEN TU1 ELSE TU2
+EnvP(p) ==
+  LET e == EnvOf(U1Of(p[1], p[2], p[3], p[4], p[5]), U2Of(p[6]), DOf(UidOfName(p[7])), ActCtxSeq[p[8]])
+  IN [e EXCEPT !.req.principal = UidOfName(p[9])]
+ParamDoms == << BOOLEAN, {"none", "u2", "u3"}, BOOLEAN, BOOLEAN, BOOLEAN, BOOLEAN, {"u1", "u2"}, 1..5, {"u1", "u2"} >>
+AllParams(dummy) == {<<a, b, cc, d, e, f, g, h, i>> : a \in ParamDoms[1], b \in ParamDoms[2], cc \in ParamDoms[3], d \in ParamDoms[4],
+                       e \in ParamDoms[5], f \in ParamDoms[6], g \in ParamDoms[7], h \in ParamDoms[8], i \in ParamDoms[9]}
+\* parameter tuples that agree with `base` outside the positions in `free`; position 8 (action+context) keeps the action
+Agree(base, free, actionFixed) ==
+  {p \in AllParams(0) : /\ \A k \in 1..9 : (k \notin free) => p[k] = base[k]
+                         /\ ((8 \in free /\ actionFixed) => (ActCtxSeq[p[8]][1] = ActCtxSeq[base[8]][1]))}
+
 WireStoreOf(st) == {[uid |-> u, attrs |-> st[u].attrs, tags |-> st[u].tags, anc |-> st[u].anc] : u \in DOMAIN st}
 WireEnv(e) == [req |-> e.req, store |-> WireStoreOf(e.store)]
 
